@@ -13,6 +13,7 @@ import (
 	"regexp"
 	"strings"
 	"sync"
+	"sync/atomic"
 	"time"
 )
 
@@ -56,7 +57,7 @@ type TargetStateConsumer interface {
 
 type inflightRequest struct {
 	cancel   context.CancelCauseFunc
-	hijacked bool
+	hijacked atomic.Bool
 }
 
 type inflightMap map[*http.Request]*inflightRequest
@@ -193,7 +194,7 @@ func (t *Target) Drain(timeout time.Duration) {
 
 	// Cancel any hijacked requests immediately, as they may be long-running.
 	for _, inflight := range toCancel {
-		if inflight.hijacked {
+		if inflight.hijacked.Load() {
 			inflight.cancel(ErrorDraining)
 		}
 	}
@@ -484,7 +485,7 @@ func (r *targetResponseWriter) Hijack() (net.Conn, *bufio.ReadWriter, error) {
 		return nil, nil, errors.New("ResponseWriter does not implement http.Hijacker")
 	}
 
-	r.inflightRequest.hijacked = true
+	r.inflightRequest.hijacked.Store(true)
 	return hijacker.Hijack()
 }
 
